@@ -1,6 +1,9 @@
 package metadata
 
-import "context"
+import (
+	"context"
+	"time"
+)
 
 // C16 — committed offsets read back exactly; commits never affect another (group, topic,
 // partition), whatever characters the names contain.
@@ -47,6 +50,44 @@ func VsymC16_StoreIsolation() {
 	if same {
 		vsym_Assert(got1 == o2, "C16/same-triple-overwritten")
 	}
+}
+
+// The same two-commit isolation question for the etcd-backed store (its key is built from the
+// names with '/' separators): names over {a, b, /, .} so that empty, "." and ".." path segments
+// and doubled or trailing slashes are among the solver's cases.
+func vsymPathName(tag string, n int) string {
+	s := vsym_String(tag, n)
+	for i := 0; i < n; i++ {
+		c := s[i]
+		vsym_Assume(vsym_Or(c == 'a', vsym_Or(c == 'b', vsym_Or(c == '.', c == '/'))))
+	}
+	return s
+}
+
+func VsymC16_EtcdIsolation() {
+	if vsym_Symbolic() {
+		vsym_Override("time.Now", func() time.Time { return time.Unix(1700000000, 0) })
+	}
+	ctx := context.Background()
+	e := newVsymEtcd()
+	st := &EtcdStore{client: e.client("store"), metadata: NewInMemoryStore(ClusterMetadata{}), available: 1}
+	g1, g2 := vsymPathName("g1", vsym_Param("lg1")), vsymPathName("g2", vsym_Param("lg2"))
+	t1, t2 := "t", "t"
+	if vsym_Bool("names-in-topic") {
+		// the varying names are the topics instead of the groups
+		t1, t2, g1, g2 = g1, g2, "g", "g"
+	}
+	o1, o2 := vsym_Int64("o1"), vsym_Int64("o2")
+	vsym_Assume(o1 >= 0 && o2 >= 0 && o1 != o2)
+	same := vsym_And(vsym_StrEq(g1, g2), vsym_StrEq(t1, t2))
+	vsym_Assert(st.CommitConsumerOffset(ctx, g1, t1, 0, o1, "m1") == nil, "C16/commit-ok")
+	vsym_Assert(st.CommitConsumerOffset(ctx, g2, t2, 0, o2, "m2") == nil, "C16/commit-ok")
+	got1, meta1, err1 := st.FetchConsumerOffset(ctx, g1, t1, 0)
+	got2, meta2, err2 := st.FetchConsumerOffset(ctx, g2, t2, 0)
+	vsym_Reach("etcd-fetched")
+	vsym_Assert(err1 == nil && err2 == nil, "C16/fetch-ok")
+	vsym_Assert(got2 == o2 && meta2 == "m2", "C16/last-commit-reads-back")
+	vsym_Assert(same || (got1 == o1 && meta1 == "m1"), "C16/other-triple-untouched")
 }
 
 // A history of commits over two fixed triples with metadata chosen from {"", "x", "yy"}: each
